@@ -375,4 +375,6 @@ def run_check(pid, tier, seed, level="exploration", only=None):
     for path, rec, err in violations:
         print("  failing: test=%s config=%s %s" % (rec["test"], rec.get("config"), str(err)[:300]))
         print("VIOLATION property=%s replay=%s" % (pid, path or os.path.join(VERIF, "known_findings.json")))
-    return 1 if violations else 0
+    if violations:
+        return 1
+    return 2 if harness_errors else 0
